@@ -66,16 +66,21 @@ impl Copyright {
 
     /// Iterate over all files paragraphs
     pub fn iter_files(&self) -> impl Iterator<Item = FilesParagraph> {
+        // The first paragraph is the header; it is never a files paragraph.
         self.0
             .paragraphs()
+            .skip(1)
             .filter(|x| x.contains_key("Files"))
             .map(FilesParagraph)
     }
 
     /// Iter over all license paragraphs
     pub fn iter_licenses(&self) -> impl Iterator<Item = LicenseParagraph> {
+        // The first paragraph is the header; its `License` field describes the
+        // package as a whole and is not a stand-alone license paragraph.
         self.0
             .paragraphs()
+            .skip(1)
             .filter(|x| !x.contains_key("Files") && x.contains_key("License"))
             .map(LicenseParagraph)
     }
